@@ -178,7 +178,19 @@ func generate(c *kit.Chooser) *Program {
 		if p.Txs[t].Create {
 			continue
 		}
-		switch c.Weighted("txto", []int{5, 4, 2, 1}) {
+		var dying []int
+		for j, b := range p.Base {
+			if b.End.Kind == endSelfdestruct {
+				dying = append(dying, j)
+			}
+		}
+		wDying := 0
+		if len(dying) > 0 && t > 0 {
+			wDying = 6
+		}
+		switch c.Weighted("txto", []int{5, 4, 2, 1, wDying}) {
+		case 4:
+			p.Txs[t].To = baseAddrs[dying[c.Intn("txto-dying", len(dying))]]
 		case 0:
 			p.Txs[t].To = baseAddrs[0]
 		case 1:
@@ -449,7 +461,13 @@ func (g *gen) baseBody(i int) *Code {
 	if view {
 		code.End = []Ending{{Kind: endStop}, {Kind: endReturn, Len: 32}, {Kind: endRevert}}[c.Weighted("view-end", []int{4, 2, 1})]
 	} else {
-		switch c.Weighted("end", []int{8, 3, 4, 1, 1, 1, 3}) {
+		wSuicide := 3
+		for j := i + 1; j < g.p.N; j++ {
+			if g.p.Base[j] != nil && g.p.Base[j].End.Kind == endSelfdestruct {
+				wSuicide = 7 // self-destructs come in groups: value sent to the dying is the rare, interesting case
+			}
+		}
+		switch c.Weighted("end", []int{8, 3, 4, 1, 1, 1, wSuicide}) {
 		case 0:
 			code.End = Ending{Kind: endStop}
 		case 1:
@@ -464,6 +482,15 @@ func (g *gen) baseBody(i int) *Code {
 			code.End = Ending{Kind: endBadJump}
 		case 6:
 			code.End = g.selfdestruct()
+		}
+	}
+	// value for the dead: when the beneficiary is a higher contract that destroys itself, usually
+	// call it first, so that it is already marked for destruction when it receives the balance
+	if code.End.Kind == endSelfdestruct && !code.End.ToSelf {
+		for j := i + 1; j < g.p.N; j++ {
+			if code.End.Beneficiary == baseAddrs[j] && g.p.Base[j] != nil && g.p.Base[j].End.Kind == endSelfdestruct && c.Chance("call-beneficiary-first", 2, 3) {
+				code.Stmts = append(code.Stmts, Stmt{Kind: stCall, Op: vm.CALL, Target: baseAddrs[j], GasMode: gasFixed, Gas: 300000})
+			}
 		}
 	}
 	// create-free: no create here and none reachable by borrowing code in our context
